@@ -70,6 +70,9 @@ theorem gen_matches_callNativePrefix : Generated.C17Kinds.callNativePrefix = ["f
 
 theorem gen_matches_checkGuards : Generated.C17Kinds.checkNativeFuncGuards = ["if lexer.KeywordToken(name) != lexer.ILLEGAL { return newError(\"can't use keyword %q as native function name\", name) }", "typ := reflect.TypeOf(f)", "if typ == nil || typ.Kind() != reflect.Func { return newError(\"native function %q is not a function\", name) }", "if reflect.ValueOf(f).IsNil() { return newError(\"native function %q is nil\", name) }", "for i := 0; i < typ.NumIn(); i++ { param := typ.In(i) if typ.IsVariadic() && i == typ.NumIn()-1 { param = param.Elem() } if !validNativeType(param) { return newError(\"native function %q param %d is not int or string\", name, i) } }", "return nil"] := by rfl
 
+theorem gen_matches_initNativeFuncs : Generated.C17Kinds.initNativeFuncsStmts = ["for name, f := range funcs { err := checkNativeFunc(name, f) if err != nil { return err } }", "names := make([]string, 0, len(funcs))", "for name := range funcs { names = append(names, name) }", "sort.Strings(names)", "p.nativeFuncs = make([]nativeFunc, len(names))", "for i, name := range names { f := funcs[name] typ := reflect.TypeOf(f) in := make([]reflect.Type, typ.NumIn()) for j := 0; j < len(in); j++ { in[j] = typ.In(j) } p.nativeFuncs[i] = nativeFunc{ isVariadic: typ.IsVariadic(), in: in, value: reflect.ValueOf(f), } }", "return nil"] ∧
+    Generated.C17Kinds.setupGuard = "if p.nativeFuncs == nil { err := p.initNativeFuncs(config.Funcs) if err != nil { return err } }" := ⟨by rfl, by rfl⟩
+
 theorem gen_matches_resolver : Generated.C17Kinds.resolverNativeBranch = "{ typ := reflect.TypeOf(v.nativeFuncs[n.Name]) if typ == nil || typ.Kind() != reflect.Func { panic(ast.PosErrorf(n.Pos, \"native function %q is not a function\", n.Name)) } numParams = typ.NumIn() if typ.IsVariadic() { numParams = 1000000000 } }" ∧ Generated.C17Kinds.resolverVariadicCap = 1000000000 := ⟨rfl, rfl⟩
 
 theorem gen_matches_keywords : Generated.C17Kinds.keywords = ["BEGIN", "END", "atan2", "break", "close", "continue", "cos", "delete", "do", "else", "exit", "exp", "fflush", "for", "function", "getline", "gsub", "if", "in", "index", "int", "length", "log", "match", "next", "nextfile", "print", "printf", "rand", "return", "sin", "split", "sprintf", "sqrt", "srand", "sub", "substr", "system", "tolower", "toupper", "while"] := by rfl
@@ -380,6 +383,84 @@ theorem nil_func_would_panic : ∃ w, (callNative ⟨[.prim .int false], false, 
 /-- …and it is made: a nil function value is rejected whatever its signature -/
 theorem nil_func_rejected (name : Bytes) (s : Sig) : ∃ e, checkNativeFunc (isKeyword name) (.func s true) = (.err [], some e) :=
   bad_shape_is_error name s true (by simp)
+
+/-! ## set-up histories on a reused interpreter -/
+
+/-- every signature in the cached table was accepted by `checkNativeFunc` -/
+def TableValid (t : Table) : Prop := ∀ n s, (n, s) ∈ t → (checkNativeFunc (isKeyword n) (.func s false)).1 = .ok ()
+
+/-- a rejected set-up leaves the cache as it was: empty — so the next call validates again -/
+theorem rejected_setup_keeps_cache (cache : Option Table) (funcs : List (Bytes × FVal)) (e : CheckErr)
+    (h : (setupStep cache funcs).1 = some e) : cache = none ∧ (setupStep cache funcs).2 = none := by
+  cases cache with
+  | some t => simp [setupStep] at h
+  | none =>
+    refine ⟨rfl, ?_⟩
+    simp only [setupStep] at h ⊢
+    cases hc : checkAll funcs with
+    | none => simp [hc] at h
+    | some e' => rfl
+
+/-- with an empty cache a call is judged on its own map: rejected iff some entry is not an acceptable function -/
+theorem setup_fresh (funcs : List (Bytes × FVal)) :
+    (setupStep none funcs).1 = checkAll funcs ∧ ((setupStep none funcs).2 = none ↔ (checkAll funcs).isSome = true) := by
+  simp only [setupStep]
+  cases checkAll funcs <;> simp
+
+theorem checkAll_none_valid : ∀ (funcs : List (Bytes × FVal)), checkAll funcs = none → TableValid (buildTable funcs)
+  | [], _ => by intro n s h; simp [buildTable] at h
+  | (n0, f0) :: rest, h => by
+    simp only [checkAll] at h
+    have hchk : ∃ u, checkNativeFunc (isKeyword n0) f0 = (.ok (), u) ∧ checkAll rest = none := by
+      generalize checkNativeFunc (isKeyword n0) f0 = res at h
+      obtain ⟨o, u⟩ := res
+      cases o with
+      | ok a => exact ⟨u, rfl, by simpa using h⟩
+      | err m => cases u <;> simp at h
+      | panic w => cases u <;> simp at h
+    obtain ⟨u, h0, hrest⟩ := hchk
+    have ih := checkAll_none_valid rest hrest
+    intro n s hmem
+    simp only [buildTable, List.filterMap_cons] at hmem
+    cases f0 with
+    | func s0 isNil =>
+      simp only [List.mem_cons] at hmem
+      rcases hmem with heq | hmem
+      · injection heq with hn hs; subst hn; subst hs
+        have hok : (checkNativeFunc (isKeyword n) (.func s isNil)).1 = .ok () := by rw [h0]
+        obtain ⟨hk, hnil, hd⟩ := (sig_accept_iff n s isNil).1 hok
+        exact (sig_accept_iff n s false).2 ⟨hk, rfl, hd⟩
+      · exact ih n s hmem
+    | other k => exact ih n s hmem
+    | untypedNil => exact ih n s hmem
+
+/-- whatever sequence of `Execute` calls (valid maps, invalid maps, maps that change between calls) an interpreter has seen, its
+cached table — if it has one — contains only signatures that passed `checkNativeFunc` -/
+theorem history_cache_valid : ∀ (hist : List (List (Bytes × FVal))) (cache : Option Table),
+    (∀ t, cache = some t → TableValid t) → ∀ t, runHistory cache hist = some t → TableValid t
+  | [], cache, hc, t, h => hc t h
+  | m :: rest, cache, hc, t, h => by
+    apply history_cache_valid rest (setupStep cache m).2 _ t h
+    intro t' ht'
+    cases cache with
+    | some t0 => simp [setupStep] at ht'; subst ht'; exact hc t0 rfl
+    | none =>
+      simp only [setupStep] at ht'
+      cases hca : checkAll m with
+      | some e => simp [hca] at ht'
+      | none => simp [hca] at ht'; subst ht'; exact checkAll_none_valid m hca
+
+/-- `never_panics` over histories: after any history starting from a new interpreter, a call through the cached table with an
+accepted argument count never panics -/
+theorem never_panics_history (hist : List (List (Bytes × FVal))) (t : Table) (h : runHistory none hist = some t)
+    (n : Bytes) (s : Sig) (hmem : (n, s) ∈ t) (hwf : s.WF = true)
+    (args : List AVal) (hr : resolveCall (.func s false) args.length = .ok) (body : Body) (hb : BodyTyped s body) :
+    ∀ w, (callNative s false args body).1 ≠ .panic w :=
+  never_panics n s false hwf (history_cache_valid hist none (by intro t h; cases h) t h n s hmem) args hr body hb
+
+example : runHistory none [[([102], .other .int)], [([102], .func ⟨[.prim .int false], false, [.prim .int false]⟩ false)], [([102], .untypedNil)]] =
+    some [([102], ⟨[.prim .int false], false, [.prim .int false]⟩)] := by decide
+example : (setupStep none [([102], .func ⟨[.prim .complex64 false], false, []⟩ false)]) = (some (.param 0), none) := by decide
 
 /-! ## non-vacuity -/
 
